@@ -52,7 +52,7 @@ def coq_bool(b) -> str:
 
 def coq_nat(n: int) -> str:
     assert 0 <= int(n) < 5000, n
-    return str(int(n))
+    return str(int(n)) + "%nat"
 
 
 def coq_Z(n: int) -> str:
@@ -100,7 +100,11 @@ def coq_bool_list(xs) -> str:
 
 
 def coq_nat_list(xs) -> str:
-    return coq_list([coq_nat(x) for x in xs])
+    return coq_list([coq_nat(x) for x in xs]) + "%nat"
+
+
+def coq_edges(es) -> str:
+    return "[" + "; ".join(f"({int(a)}%nat,{int(b)}%nat)" for a, b in es) + "]"
 
 
 def coq_pair(a, b) -> str:
